@@ -1,10 +1,11 @@
 (* C16: numeric text parsing is exact (util/parsenum.h, util/humansize.c).
    Only statements, each closed by [exact], with Print Assumptions.
    Models: Util/Strto.v (strtoumax/strtoimax), Util/Parsenum.v (macro logic + inline functions),
+   Util/ParsenumFloat.v (binary64 / binary32 patterns, the conversion double -> float),
    Util/Humansize.v (instantiated with the literals regenerated from the C in Gen/Repo_parsenum.v).
    Specs: Util/ParsenumSpec.v (numeral grammar over Z), Util/HumansizeSpec.v. *)
 From Coq Require Import NArith ZArith List.
-From LCP Require Import Base.CheckedMem Util.ParsenumSpec Util.Strto Util.Parsenum Util.ParsenumProofs Util.Humansize Util.HumansizeSpec Util.HumansizeProofs.
+From LCP Require Import Base.CheckedMem Util.ParsenumSpec Util.Strto Util.ParsenumFloat Util.Parsenum Util.ParsenumProofs Util.ParsenumFloatProofs Util.Humansize Util.HumansizeSpec Util.HumansizeProofs.
 Import ListNotations.
 Local Open Scope Z_scope.
 
@@ -43,15 +44,17 @@ Proof. exact parsenum_ex4_unsigned_exact_proof. Qed.
 Print Assumptions C16_parsenum_unsigned_nobounds_exact.
 
 (* M3: floating-point targets.  strtod itself is libc's (its answer sd is data: characters consumed,
-   its own range error, the two comparison outcomes, the class).  The wrapper reports EINVAL iff
-   nothing was converted or junk follows (and trailing is off); ERANGE iff converted, no junk, and the
-   value is below min, above max or strtod raised a range error; a NaN passes any bounds. *)
+   its own range error, the two comparison outcomes, the double returned as its 64-bit pattern).  The
+   wrapper reports EINVAL iff nothing was converted or junk follows (and trailing is off); ERANGE iff
+   converted, no junk, and the value is below min, above max or strtod raised a range error; a NaN
+   passes any bounds.  What is left in *x is strtod's double converted to the target type (w = 32: a
+   float, narrowed; otherwise the double itself), whatever errno is. *)
 Theorem C16_parsenum_float_wrapper :
   forall w min max trailing s sd,
     no_nul s -> (sd_consumed sd <= length s)%nat ->
     exists e,
-      parsenum_ex6 {| ck := KFloat; cw := w |} (cstr s) min max 0 trailing sd = Ok {| o_errno := e; o_stored := 0 |} /\
-      parsenum_ex4 {| ck := KFloat; cw := w |} (cstr s) 0 trailing sd = Ok {| o_errno := e; o_stored := 0 |} /\
+      parsenum_ex6 {| ck := KFloat; cw := w |} (cstr s) min max 0 trailing sd = Ok {| o_errno := e; o_stored := fstore w (sd_bits sd) |} /\
+      parsenum_ex4 {| ck := KFloat; cw := w |} (cstr s) 0 trailing sd = Ok {| o_errno := e; o_stored := fstore w (sd_bits sd) |} /\
       let converted := sd_consumed sd <> 0%nat in
       let junk := trailing = false /\ sd_consumed sd <> length s in
       (e = EInval <-> (~ converted \/ junk)) /\
@@ -61,6 +64,88 @@ Theorem C16_parsenum_float_wrapper :
        sd_erange sd = false -> e = ENone).
 Proof. exact parsenum_float_wrapper_proof. Qed.
 Print Assumptions C16_parsenum_float_wrapper.
+
+(* M3a: the conversion double -> float of the model ([narrow32], integer arithmetic on bit patterns)
+   is the correctly rounded one, for EVERY 64-bit pattern: NaN to NaN, infinity to infinity with its
+   sign; a finite m * 2^e overflows to infinity exactly when m * 2^e >= 2^128 - 2^103 (FLT_MAX plus
+   half a spacing; magnitudes in units of 2^-1074); otherwise the result is finite, has the sign of
+   the double, and no float magnitude is nearer to m * 2^e than the result's.  (Which of two equally
+   near floats is taken - the even one, Util/ParsenumFloatProofs.rne_tie_even for the rounding
+   step - is not part of this statement; the correspondence run exercises exact ties.) *)
+Theorem C16_narrow32_correctly_rounded :
+  forall b,
+    match decode64 b with
+    | VNan => decode32 (narrow32 b) = VNan
+    | VInf n => decode32 (narrow32 b) = VInf n
+    | VFin n m e =>
+      if OVF32_units <=? units m e then decode32 (narrow32 b) = VInf n
+      else exists m' e', decode32 (narrow32 b) = VFin n m' e' /\
+           forall c n2 m2 e2, decode32 c = VFin n2 m2 e2 ->
+             Z.abs (units m' e' - units m e) <= Z.abs (units m2 e2 - units m e)
+    end.
+Proof. exact narrow32_correct. Qed.
+Print Assumptions C16_narrow32_correctly_rounded.
+
+(* M3b: double targets meet the property (given strtod): the outcome is the typed reading of the
+   property (float_spec_typed 64 = the wrapper's conditions; every double lies within double) and the
+   value stored is strtod's, bit for bit. *)
+Theorem C16_parsenum_double_exact :
+  forall min max trailing s sd,
+    no_nul s -> (sd_consumed sd <= length s)%nat ->
+    parsenum_ex6 {| ck := KFloat; cw := 64 |} (cstr s) min max 0 trailing sd
+      = Ok {| o_errno := float_spec_typed 64 s sd trailing; o_stored := sd_bits sd |} /\
+    parsenum_ex4 {| ck := KFloat; cw := 64 |} (cstr s) 0 trailing sd
+      = Ok {| o_errno := float_spec_typed 64 s sd trailing; o_stored := sd_bits sd |}.
+Proof. exact parsenum_double_exact_proof. Qed.
+Print Assumptions C16_parsenum_double_exact.
+
+(* M3c: float targets, PARTIAL: only when strtod's value lies within float (|v| <= FLT_MAX, or it
+   is an infinity / NaN) is the outcome the property's; the float stored is then the correctly rounded
+   value.  Missing for the full statement: values beyond FLT_MAX - there the code does NOT fail, see
+   C16_parsenum_float_narrowing_refuted. *)
+Theorem C16_parsenum_float32_in_type_partial :
+  forall min max trailing s sd,
+    no_nul s -> (sd_consumed sd <= length s)%nat ->
+    in_float32 (decode64 (sd_bits sd)) = true ->
+    parsenum_ex6 {| ck := KFloat; cw := 32 |} (cstr s) min max 0 trailing sd
+      = Ok {| o_errno := float_spec_typed 32 s sd trailing; o_stored := narrow32 (sd_bits sd) |} /\
+    parsenum_ex4 {| ck := KFloat; cw := 32 |} (cstr s) 0 trailing sd
+      = Ok {| o_errno := float_spec_typed 32 s sd trailing; o_stored := narrow32 (sd_bits sd) |} /\
+    match decode64 (sd_bits sd) with
+    | VNan => decode32 (narrow32 (sd_bits sd)) = VNan
+    | VInf n => decode32 (narrow32 (sd_bits sd)) = VInf n
+    | VFin n m e => exists m' e', decode32 (narrow32 (sd_bits sd)) = VFin n m' e' /\ nearest32 m e m' e'
+    end.
+Proof. exact parsenum_float32_in_type_proof. Qed.
+Print Assumptions C16_parsenum_float32_in_type_partial.
+
+(* M3d: REFUTATION of the property for float targets (known finding parsenum.float-target-narrowing).
+   The macro range-checks the double and then assigns it to the float: with float f,
+   PARSENUM(&f, "1e300", 0, 1e308) and PARSENUM(&f, "1e300") report success (errno 0) and leave
+   +infinity in f, although 10^300 is a finite value inside the requested bounds and outside float,
+   for which the property asks ERANGE (the same call with a double target is right).  Underflow is
+   silent as well: PARSENUM(&f, "1e-50") succeeds and stores +0 for a non-zero value. *)
+Theorem C16_parsenum_float_narrowing_refuted :
+  let s := [49; 101; 51; 48; 48]%N in
+  let d := 0x7e37e43c8800759c in
+  let sd := mk_sd 5 false d 0 0x7fe1ccf385ebc8a0 in
+  let sd' := mk_sd 5 false d 0xfff0000000000000 0x7ff0000000000000 in
+  no_nul s /\ (sd_consumed sd <= length s)%nat /\
+  sd_class sd = FFinite /\ sd_lt_min sd = false /\ sd_gt_max sd = false /\ sd_erange sd = false /\
+  in_float32 (decode64 d) = false /\
+  parsenum_ex6 {| ck := KFloat; cw := 32 |} (cstr s) 0 0 0 false sd = Ok {| o_errno := ENone; o_stored := INF32 |} /\
+  parsenum_ex4 {| ck := KFloat; cw := 32 |} (cstr s) 0 false sd' = Ok {| o_errno := ENone; o_stored := INF32 |} /\
+  decode32 INF32 = VInf false /\
+  float_spec_typed 32 s sd false = ERange /\ float_spec_typed 32 s sd' false = ERange /\
+  parsenum_ex6 {| ck := KFloat; cw := 64 |} (cstr s) 0 0 0 false sd = Ok {| o_errno := ENone; o_stored := d |} /\
+  float_spec_typed 64 s sd false = ENone /\
+  let s2 := [49; 101; 45; 53; 48]%N in
+  let d2 := 0x358dee7a4ad4b81f in
+  let sd2 := mk_sd 5 false d2 0xfff0000000000000 0x7ff0000000000000 in
+  parsenum_ex4 {| ck := KFloat; cw := 32 |} (cstr s2) 0 false sd2 = Ok {| o_errno := ENone; o_stored := 0 |} /\
+  decode64 d2 = VFin false 8424983333484575 (-219) /\ decode32 0 = VFin false 0 (-149).
+Proof. exact parsenum_float_narrowing_refuted_proof. Qed.
+Print Assumptions C16_parsenum_float_narrowing_refuted.
 
 (* regression for finding F4: without the sign test the old parsenum_unsigned stored 2^64-1 for "-1"
    into a uintmax_t and reported success, against the spec; the code as it is now reports ERANGE *)
